@@ -98,10 +98,13 @@ impl Val {
         match self {
             Val::Null => Some("null".into()),
             Val::Bool(b) => Some(b.to_string()),
-            Val::Int(i) if *i > i64::MIN => Some(i.to_string()),
+            // a negative literal is parsed as unary minus applied to a literal: not a Literal for the
+            // planner, no IndexSeek is planned; negative numbers therefore travel as parameters
+            Val::Int(i) if *i >= 0 => Some(i.to_string()),
+            Val::Int(_) => None,
             Val::Float(b) => {
                 let f = f64::from_bits(*b);
-                if f.is_finite() && f.abs() < 1e15 && (f == 0.0 || f.abs() > 1e-4) && !(f == 0.0 && f.is_sign_negative()) {
+                if f.is_finite() && f.abs() < 1e15 && (f == 0.0 || f.abs() > 1e-4) && !f.is_sign_negative() {
                     Some(format!("{:?}", f))
                 } else {
                     None
@@ -122,8 +125,9 @@ fn eq_true(a: &Val, b: &Val) -> bool {
         (Val::Float(x), Val::Float(y)) => f64::from_bits(*x) == f64::from_bits(*y),
         (Val::Int(x), Val::Float(y)) | (Val::Float(y), Val::Int(x)) => {
             let f = f64::from_bits(*y);
-            // evaluator_equality.rs float_equals_int, in Rust's own arithmetic
-            f.is_finite() && f == (*x as f64)
+            // evaluator_equality.rs float_equals_int = compare_i64_f64 == Equal (exact, since /repo 375602e):
+            // the double is integral, inside the i64 range, and is that integer
+            f.is_finite() && f.fract() == 0.0 && f >= -9.223372036854775808e18 && f < 9.223372036854775808e18 && (f as i64) == *x
         }
         _ => false,
     }
@@ -670,6 +674,9 @@ fn run_history(idx: usize, cx: &mut Ctx, script: Option<Vec<Op>>, il: u8, ik: u8
             let ra = read_ids(pair.a.as_ref().unwrap(), &q, &params);
             let rb = read_ids(pair.b.as_ref().unwrap(), &q, &params);
             cx.evaluations += 1;
+            if std::env::var("C15_DEBUG").ok().and_then(|x| x.parse::<usize>().ok()) == Some(idx) {
+                eprintln!("[{idx}] after {:?}\n   {q} {:?} -> with {:?} without {:?}", log.last(), preds, ra, rb);
+            }
             let input = json!({"ilabel": LABELS[il as usize], "ikey": KEYS[ik as usize], "history": log, "query": q,
                                "params": preds.iter().map(|(k, v)| json!({KEYS[*k as usize]: v.js()})).collect::<Vec<_>>()});
             let (ra, rb) = match (ra, rb) {
